@@ -123,6 +123,47 @@ theorem go_tokens (d d1 : AnalyzedSource) (cs : List TextChange)
       simp only [ha] at hgo
       exact ih d' (applyChange_tokens d d' c hinv ha) hgo
 
+/-- **C01/C08, text layer over a batch**: after the incremental fold the document text is the
+    left fold of `replace_range` over the changes — whatever the tokens and the tree do. -/
+theorem go_text (d d1 : AnalyzedSource) (cs : List TextChange)
+    (hgo : AnalyzedSource.update.go d cs = .ok d1) :
+    cs.foldl (fun (acc : Option (List Char)) c => acc.bind (fun t => replaceRange t c.lo c.hi c.text))
+      (some d.text) = some d1.text := by
+  induction cs generalizing d with
+  | nil =>
+    simp only [AnalyzedSource.update.go, Except.ok.injEq] at hgo
+    subst hgo; rfl
+  | cons c cs ih =>
+    simp only [AnalyzedSource.update.go] at hgo
+    cases ha : d.applyChange c with
+    | error e => simp [ha] at hgo
+    | ok d' =>
+      simp only [ha] at hgo
+      have ht := applyChange_text d d' c ha
+      simp only [List.foldl_cons, Option.bind, ht]
+      exact ih d' hgo
+
+/-- … and `update` returns a document with exactly that text. -/
+theorem update_text (d u : AnalyzedSource) (cs : List TextChange) (h : d.update cs = .ok u) :
+    cs.foldl (fun (acc : Option (List Char)) c => acc.bind (fun t => replaceRange t c.lo c.hi c.text))
+      (some d.text) = some u.text := by
+  unfold AnalyzedSource.update at h
+  cases hgo : AnalyzedSource.update.go d cs with
+  | error e => simp [hgo] at h
+  | ok d1 =>
+    simp only [hgo] at h
+    cases hb : build d1.ast with
+    | error e => simp [hb] at h
+    | ok r =>
+      obtain ⟨prog1, table⟩ := r
+      simp only [hb] at h
+      cases ha : analyze prog1 table with
+      | error e => simp [ha] at h
+      | ok prog2 =>
+        simp only [ha, Except.ok.injEq] at h
+        subst h
+        exact go_text d d1 cs hgo
+
 /-- With the token layer proved, the whole of C01 reduces to the tree layer: if the incremental
     tree equals the fresh parse, `update` returns exactly `AnalyzedSource::new` of the final text. -/
 theorem update_eq_new_of_tree (d d1 : AnalyzedSource) (cs : List TextChange)
